@@ -137,14 +137,35 @@ def St.malloc (s : St) (size align : Nat) : St × Option Nat :=
   | [] => ({ s with evs := s.evs ++ [.malloc size align none], underflow := true }, none)
   | r :: rest => ({ s with ans := rest, evs := s.evs ++ [.malloc size align r] }, r)
 
+/-- the allocator contract for an answer `addr` to a request `(size, align)` while `held`
+chunks (and the static at `E`) are outstanding -/
+def mallocOK (E : Nat) (held : List Chunk) (size align addr : Nat) : Bool :=
+  decide (addr ≠ 0) && decide (addr % align = 0) && decide (addr + size ≤ 2 ^ 63) &&
+  (decide (addr + size ≤ E) || decide (E + FOOTER_SIZE ≤ addr)) &&
+  held.all (fun c => decide (addr + size ≤ c.data) || decide (c.data + c.size ≤ addr))
+
+/-- sequencing: propagate every non-`ok` outcome unchanged -/
+@[inline] def bindO {α β : Type} (x : St × Outcome α) (f : St → α → St × Outcome β) : St × Outcome β :=
+  match x with
+  | (s, .ok a) => f s a
+  | (s, .err) => (s, .err)
+  | (s, .panic) => (s, .panic)
+  | (s, .bad w) => (s, .bad w)
+  | (s, .envBad) => (s, .envBad)
+
+/-- lift a pure outcome -/
+@[inline] def pureO {α β : Type} (s : St) (o : Outcome α) (f : St → α → St × Outcome β) : St × Outcome β :=
+  bindO (s, o) f
+
 /-- `new_chunk`; `.ok none` = `None` (invalid layout or refusal) -/
-def newChunk (M : Nat) (d : Details) (reqSz : Nat) (prevAb : Nat) (s : St) : St × Outcome (Option Chunk) :=
+def newChunk (E : Nat) (held : List Chunk) (M : Nat) (d : Details) (reqSz : Nat) (prevAb : Nat) (s : St) :
+    St × Outcome (Option Chunk) :=
   if !validLayout d.size d.align then (s, .ok none) else
   if d.size < reqSz then (s, .bad "new_chunk: size assertion") else
   match s.malloc d.size d.align with
   | (s, none) => (s, .ok none)
   | (s, some addr) =>
-    if addr = 0 ∨ addr % d.align ≠ 0 ∨ addr + d.size > 2 ^ 63 then (s, .bad "allocator contract violated") else
+    if !mallocOK E held d.size d.align addr then (s, .envBad) else
     let footer := addr + d.nswf
     if footer % CHUNK_ALIGN ≠ 0 then (s, .bad "new_chunk: footer alignment assertion") else
     let ptr := wsub footer (footer % M)
@@ -166,29 +187,31 @@ def fitsUnderLimit (rem : Option Nat) (d : Details) : Bool :=
 
 /-! ## slow path (lib.rs:2006-2064) -/
 
+/-- `bypass_min_chunk_size_for_small_limits` -/
+def bypassMin (limit : Option Nat) (ab sz base : Nat) : Bool :=
+  match limit with
+  | some lim => decide (sz < lim) && decide (base ≥ max sz 1) && decide (lim < DEFAULT_CHUNK_SIZE_WITHOUT_FOOTER) && decide (ab = 0)
+  | none => false
+
 /-- the `iter::from_fn(..).filter_map(..).next()` pipeline; recursion on the halving
 `base_size`, with fuel (65 halvings take any `usize` to 0). `.ok none` = iterator ended. -/
-def slowLoop (M : Nat) (limit : Option Nat) (ab : Nat) (sz al : Nat) (rem : Option Nat) (minNew : Nat) :
-    Nat → Nat → St → St × Outcome (Option Chunk)
+def slowLoop (E : Nat) (held : List Chunk) (M : Nat) (limit : Option Nat) (ab : Nat) (sz al : Nat)
+    (rem : Option Nat) (minNew : Nat) : Nat → Nat → St → St × Outcome (Option Chunk)
   | 0, _, s => (s, .bad "slow: candidate loop does not terminate")
   | fuel + 1, base, s =>
-    let bypass : Bool := match limit with
-      | some lim => decide (sz < lim) && decide (base ≥ max sz 1) && decide (lim < DEFAULT_CHUNK_SIZE_WITHOUT_FOOTER) && decide (ab = 0)
-      | none => false
-    if decide (base ≥ minNew) || bypass then
+    if decide (base ≥ minNew) || bypassMin limit ab sz base then
       match newChunkMemoryDetails M (some base) sz al with
       | .ok d =>
         if fitsUnderLimit rem d then
-          match newChunk M d sz ab s with
-          | (s, .ok (some c)) => (s, .ok (some c))
-          | (s, .ok none) => slowLoop M limit ab sz al rem minNew fuel (base / 2) s
-          | (s, .err) => (s, .bad "new_chunk: impossible")
-          | (s, .panic) => (s, .panic)
-          | (s, .bad w) => (s, .bad w)
-        else slowLoop M limit ab sz al rem minNew fuel (base / 2) s
+          bindO (newChunk E held M d sz ab s) fun s oc =>
+            match oc with
+            | some c => (s, .ok (some c))
+            | none => slowLoop E held M limit ab sz al rem minNew fuel (base / 2) s
+        else slowLoop E held M limit ab sz al rem minNew fuel (base / 2) s
       | .err => (s, .ok none)
       | .panic => (s, .panic)
       | .bad w => (s, .bad w)
+      | .envBad => (s, .envBad)
     else (s, .ok none)
 
 /-- `alloc_layout_slow`; `.err` = `None` -/
@@ -202,28 +225,22 @@ def allocSlow (E : Nat) (sz al : Nat) (s : St) : St × Outcome Nat :=
   | none => (s, .err)
   | some b2 =>
     let base := max b2 minNew
-    match slowLoop a.M a.limit (a.allocatedBytes E) sz al rem minNew 70 base s with
-    | (s, .ok none) => (s, .err)
-    | (s, .ok (some c)) =>
-      let a' : Arena := { s.a with chunks := c :: s.a.chunks }
-      match tryFast E a' sz al with
-      | .ok (some (a'', p)) => ({ s with a := a'' }, .ok p)
-      | .ok none => ({ s with a := a' }, .bad "slow: fresh chunk cannot serve the request")
-      | .err => ({ s with a := a' }, .bad "impossible")
-      | .panic => ({ s with a := a' }, .panic)
-      | .bad w => ({ s with a := a' }, .bad w)
-    | (s, .err) => (s, .err)
-    | (s, .panic) => (s, .panic)
-    | (s, .bad w) => (s, .bad w)
+    bindO (slowLoop E a.chunks a.M a.limit (a.allocatedBytes E) sz al rem minNew 70 base s) fun s oc =>
+      match oc with
+      | none => (s, .err)
+      | some c =>
+        let a' : Arena := { s.a with chunks := c :: s.a.chunks }
+        pureO { s with a := a' } (tryFast E a' sz al) fun s r =>
+          match r with
+          | some (a'', p) => ({ s with a := a'' }, .ok p)
+          | none => (s, .bad "slow: fresh chunk cannot serve the request")
 
 /-- `try_alloc_layout` -/
 def tryAllocLayout (E : Nat) (sz al : Nat) (s : St) : St × Outcome Nat :=
-  match tryFast E s.a sz al with
-  | .ok (some (a', p)) => ({ s with a := a' }, .ok p)
-  | .ok none => allocSlow E sz al s
-  | .err => (s, .bad "impossible")
-  | .panic => (s, .panic)
-  | .bad w => (s, .bad w)
+  pureO s (tryFast E s.a sz al) fun s r =>
+    match r with
+    | some (a', p) => ({ s with a := a' }, .ok p)
+    | none => allocSlow E sz al s
 
 /-- `alloc_layout`: `unwrap_or_else(|_| oom())` -/
 def allocLayout (E : Nat) (sz al : Nat) (s : St) : St × Outcome Nat :=
@@ -237,7 +254,7 @@ def allocMaybe (E : Nat) (fallible : Bool) (sz al : Nat) (s : St) : St × Outcom
 /-! ## constructors, reset, drop (lib.rs:600-740, 971-1011, 386-401) -/
 
 /-- `(try_)with_min_align_and_capacity`; `cap = 0` is also `with_min_align()` -/
-def newArena (M cap : Nat) (fallible : Bool) (s : St) : St × Outcome Arena :=
+def newArena (E : Nat) (M cap : Nat) (fallible : Bool) (s : St) : St × Outcome Arena :=
   if !isPow2 M || decide (M > CHUNK_ALIGN) then (s, .panic) else
   if cap = 0 then (s, .ok ⟨M, [], none⟩) else
   let fail : Outcome Arena := if fallible then .err else .panic
@@ -246,13 +263,12 @@ def newArena (M cap : Nat) (fallible : Bool) (s : St) : St × Outcome Arena :=
   | .err => (s, fail)
   | .panic => (s, .panic)
   | .bad w => (s, .bad w)
+  | .envBad => (s, .envBad)
   | .ok d =>
-    match newChunk M d cap 0 s with
-    | (s, .ok (some c)) => (s, .ok ⟨M, [c], none⟩)
-    | (s, .ok none) => (s, fail)
-    | (s, .err) => (s, .bad "impossible")
-    | (s, .panic) => (s, .panic)
-    | (s, .bad w) => (s, .bad w)
+    bindO (newChunk E [] M d cap 0 s) fun s oc =>
+      match oc with
+      | some c => (s, .ok ⟨M, [c], none⟩)
+      | none => (s, fail)
 
 def freeEv (c : Chunk) : Ev := .free c.data c.size c.align
 
@@ -292,15 +308,17 @@ def dealloc (E : Nat) (p sz : Nat) (s : St) : St × Outcome Unit :=
 
 def rangesOverlap (a b n : Nat) : Bool := decide (n > 0) && decide (a < b + n) && decide (b < a + n)
 
+/-- `copy_nonoverlapping(p, q, n)` -/
+def copyNonoverlapping (p q n : Nat) (why : String) (s : St) : St × Outcome Nat :=
+  if rangesOverlap p q n then (s, .bad why)
+  else ({ s with mem := s.mem ++ [.copyNonoverlapping p q n] }, .ok q)
+
 /-- `shrink` -/
 def shrink (E : Nat) (p osz oal nsz nal : Nat) (s : St) : St × Outcome Nat :=
   if oal < nal then
     if p % nal = 0 then (s, .ok p) else
-    match tryAllocLayout E nsz nal s with
-    | (s, .ok q) =>
-      if rangesOverlap p q nsz then (s, .bad "shrink: copy_nonoverlapping on overlapping ranges")
-      else ({ s with mem := s.mem ++ [.copyNonoverlapping p q nsz] }, .ok q)
-    | r => r
+    bindO (tryAllocLayout E nsz nal s) fun s q =>
+      copyNonoverlapping p q nsz "shrink: copy_nonoverlapping on overlapping ranges" s
   else
     if p % nal ≠ 0 then (s, .bad "shrink: alignment assertion") else
     if osz < nsz then (s, .bad "shrink: unchecked sub wraps") else
@@ -308,36 +326,29 @@ def shrink (E : Nat) (p osz oal nsz nal : Nat) (s : St) : St × Outcome Nat :=
     if isLast E s.a p && decide (delta ≥ (osz + 1) / 2) then
       let q := (s.a.cur E).ptr + delta
       if q % s.a.M ≠ 0 then (s, .bad "shrink: finger alignment assertion") else
-      match storePtr E s q "shrink: finger of the static empty chunk moved" with
-      | (s, .ok ()) =>
-        if rangesOverlap p q nsz then (s, .bad "shrink: copy_nonoverlapping on overlapping ranges")
-        else ({ s with mem := s.mem ++ [.copyNonoverlapping p q nsz] }, .ok q)
-      | (s, .bad w) => (s, .bad w)
-      | (s, _) => (s, .bad "impossible")
+      bindO (storePtr E s q "shrink: finger of the static empty chunk moved") fun s _ =>
+        copyNonoverlapping p q nsz "shrink: copy_nonoverlapping on overlapping ranges" s
     else (s, .ok p)
+
+/-- the fallback of `grow`: fresh allocation + copy -/
+def growFallback (E : Nat) (p osz nsz nal : Nat) (s : St) : St × Outcome Nat :=
+  bindO (tryAllocLayout E nsz nal s) fun s q =>
+    copyNonoverlapping p q osz "grow: copy_nonoverlapping on overlapping ranges" s
 
 /-- `grow` -/
 def grow (E : Nat) (p osz oal nsz nal : Nat) (s : St) : St × Outcome Nat :=
   match roundUpTo nsz s.a.M with
   | none => (s, .err)
   | some ns =>
-    let fallback (s : St) : St × Outcome Nat :=
-      match tryAllocLayout E nsz nal s with
-      | (s, .ok q) =>
-        if rangesOverlap p q osz then (s, .bad "grow: copy_nonoverlapping on overlapping ranges")
-        else ({ s with mem := s.mem ++ [.copyNonoverlapping p q osz] }, .ok q)
-      | r => r
     if decide (oal ≥ nal) && isLast E s.a p then
       if ns < osz then (s, .bad "grow: unchecked sub wraps") else
       let delta := ns - osz
       if !validLayout delta oal then (s, .err) else
-      match tryFast E s.a delta oal with
-      | .ok (some (a', q)) => ({ s with a := a', mem := s.mem ++ [.copy p q osz] }, .ok q)
-      | .ok none => fallback s
-      | .err => (s, .bad "impossible")
-      | .panic => (s, .panic)
-      | .bad w => (s, .bad w)
-    else fallback s
+      pureO s (tryFast E s.a delta oal) fun s r =>
+        match r with
+        | some (a', q) => ({ s with a := a', mem := s.mem ++ [.copy p q osz] }, .ok q)
+        | none => growFallback E p osz nsz nal s
+    else growFallback E p osz nsz nal s
 
 /-! ## fallible initialisers (lib.rs:1198-1367, 1584-1620) -/
 
@@ -346,26 +357,22 @@ inductive Inner where
   | release (sz al : Nat)
   deriving Repr, DecidableEq
 
+/-- `try_alloc_layout` as the initialiser uses it: a failure is not fatal, it yields 0 -/
+def tryAllocOr0 (E : Nat) (sz al : Nat) (s : St) : St × Outcome Nat :=
+  match tryAllocLayout E sz al s with
+  | (s, .err) => (s, .ok 0)
+  | r => r
+
 /-- what the initialiser closure does inside the arena; returns the pointers it obtained
 (0 for a failed request) -/
 def runInner (E : Nat) : List Inner → St → List Nat → St × Outcome (List Nat)
   | [], s, acc => (s, .ok acc)
   | .keep sz al :: rest, s, acc =>
-    match tryAllocLayout E sz al s with
-    | (s, .ok p) => runInner E rest s (acc ++ [p])
-    | (s, .err) => runInner E rest s (acc ++ [0])
-    | (s, .panic) => (s, .panic)
-    | (s, .bad w) => (s, .bad w)
+    bindO (tryAllocOr0 E sz al s) fun s p => runInner E rest s (acc ++ [p])
   | .release sz al :: rest, s, acc =>
-    match tryAllocLayout E sz al s with
-    | (s, .ok p) =>
-      match dealloc E p sz s with
-      | (s, .ok ()) => runInner E rest s (acc ++ [p])
-      | (s, .bad w) => (s, .bad w)
-      | (s, _) => (s, .bad "impossible")
-    | (s, .err) => runInner E rest s (acc ++ [0])
-    | (s, .panic) => (s, .panic)
-    | (s, .bad w) => (s, .bad w)
+    bindO (tryAllocOr0 E sz al s) fun s p =>
+      if p = 0 then runInner E rest s (acc ++ [p]) else
+      bindO (dealloc E p sz s) fun s _ => runInner E rest s (acc ++ [p])
 
 /-- identity of the current footer (its address; `none` for the static) -/
 def footerId (a : Arena) : Option Nat := a.chunks.head?.map (·.footer)
@@ -379,51 +386,46 @@ inductive Res where
   | ierr (inner : List Nat)
   | panic
   | bad (why : String)
+  | envBad
   deriving Repr, DecidableEq
+
+def Res.ofOutcome {α : Type} (f : α → Res) : Outcome α → Res
+  | .ok a => f a
+  | .err => .err
+  | .panic => .panic
+  | .bad w => .bad w
+  | .envBad => .envBad
+
+/-- the rewind of a failed initialiser (post-fix: a fresh chunk is rewound to its footer) -/
+def rewind (E : Nat) (rewindFooter : Option Nat) (rewindPtr slot : Nat) (s : St) : St × Outcome Unit :=
+  if isLast E s.a slot then
+    let target := if footerId s.a == rewindFooter then rewindPtr else (s.a.cur E).footer
+    storePtr E s target "rewind: finger of the static empty chunk moved"
+  else (s, .ok ())
 
 /-- `alloc_try_with` / `try_alloc_try_with` with an initialiser that performs `inner` and
 returns `Ok`/`Err` -/
 def allocTryWith (E : Nat) (sz al : Nat) (ok : Bool) (inner : List Inner) (fallible : Bool) (s : St) : St × Res :=
   let rewindFooter := footerId s.a
   let rewindPtr := (s.a.cur E).ptr
-  match allocMaybe E fallible sz al s with
-  | (s, .err) => (s, .err)
-  | (s, .panic) => (s, .panic)
-  | (s, .bad w) => (s, .bad w)
-  | (s, .ok slot) =>
-    match runInner E inner s [] with
-    | (s, .panic) => (s, .panic)
-    | (s, .bad w) => (s, .bad w)
-    | (s, .err) => (s, .bad "impossible")
-    | (s, .ok ps) =>
-      if ok then (s, .ptrIn slot ps) else
-      if isLast E s.a slot then
-        let target := if footerId s.a == rewindFooter then rewindPtr else (s.a.cur E).footer
-        match storePtr E s target "rewind: finger of the static empty chunk moved" with
-        | (s, .ok ()) => (s, .ierr ps)
-        | (s, .bad w) => (s, .bad w)
-        | (s, _) => (s, .bad "impossible")
-      else (s, .ierr ps)
+  let r := bindO (allocMaybe E fallible sz al s) fun s slot =>
+    bindO (runInner E inner s []) fun s ps =>
+      if ok then (s, .ok (Res.ptrIn slot ps)) else
+      bindO (rewind E rewindFooter rewindPtr slot s) fun s _ => (s, .ok (Res.ierr ps))
+  (r.1, Res.ofOutcome id r.2)
 
 /-- `alloc_slice_try_fill_with` / `_iter`: reserve, fill, `dealloc` on the first error -/
 def sliceTryFill (E : Nat) (esz eal n : Nat) (errat : Option Nat) (s : St) : St × Res :=
   match arrayLayout esz eal n with
   | none => (s, .panic)
   | some total =>
-    match allocLayout E total eal s with
-    | (s, .err) => (s, .bad "impossible")
-    | (s, .panic) => (s, .panic)
-    | (s, .bad w) => (s, .bad w)
-    | (s, .ok p) =>
+    let r := bindO (allocLayout E total eal s) fun s p =>
       match errat with
-      | none => (s, .ptr p)
+      | none => (s, .ok (Res.ptr p))
       | some i =>
-        if i < n then
-          match dealloc E p total s with
-          | (s, .ok ()) => (s, .ierr [])
-          | (s, .bad w) => (s, .bad w)
-          | (s, _) => (s, .bad "impossible")
-        else (s, .ptr p)
+        if i < n then bindO (dealloc E p total s) fun s _ => (s, .ok (Res.ierr []))
+        else (s, .ok (Res.ptr p))
+    (r.1, Res.ofOutcome id r.2)
 
 /-! ## the operation alphabet -/
 
@@ -440,35 +442,23 @@ inductive Op where
   | limit (v : Option Nat)
   deriving Repr, DecidableEq
 
-def ofOutcomePtr : Outcome Nat → Res
-  | .ok p => .ptr p
-  | .err => .err
-  | .panic => .panic
-  | .bad w => .bad w
-
-def ofOutcomeUnit : Outcome Unit → Res
-  | .ok () => .unit
-  | .err => .err
-  | .panic => .panic
-  | .bad w => .bad w
-
 def step (E : Nat) (op : Op) (s : St) : St × Res :=
   match op with
-  | .alloc sz al f => let (s, r) := allocMaybe E f sz al s; (s, ofOutcomePtr r)
+  | .alloc sz al f => let r := allocMaybe E f sz al s; (r.1, Res.ofOutcome Res.ptr r.2)
   | .array esz eal n f =>
     match arrayLayout esz eal n with
     | none => (s, if f then .err else .panic)
-    | some total => let (s, r) := allocMaybe E f total eal s; (s, ofOutcomePtr r)
+    | some total => let r := allocMaybe E f total eal s; (r.1, Res.ofOutcome Res.ptr r.2)
   | .atw sz al ok inner f => allocTryWith E sz al ok inner f s
   | .tfill esz eal n errat => sliceTryFill E esz eal n errat s
-  | .aalloc sz al => let (s, r) := tryAllocLayout E sz al s; (s, ofOutcomePtr r)
-  | .afree p sz _ => let (s, r) := dealloc E p sz s; (s, ofOutcomeUnit r)
+  | .aalloc sz al => let r := tryAllocLayout E sz al s; (r.1, Res.ofOutcome Res.ptr r.2)
+  | .afree p sz _ => let r := dealloc E p sz s; (r.1, Res.ofOutcome (fun _ => Res.unit) r.2)
   | .agrow p osz oal nsz nal z =>
-    match grow E p osz oal nsz nal s with
-    | (s, .ok q) => (if z then { s with mem := s.mem ++ [.zero (q + osz) (nsz - osz)] } else s, .ptr q)
-    | (s, r) => (s, ofOutcomePtr r)
-  | .ashrink p osz oal nsz nal => let (s, r) := shrink E p osz oal nsz nal s; (s, ofOutcomePtr r)
-  | .reset => let (s, r) := reset s; (s, ofOutcomeUnit r)
+    let r := bindO (grow E p osz oal nsz nal s) fun s q =>
+      (if z then { s with mem := s.mem ++ [.zero (q + osz) (nsz - osz)] } else s, .ok q)
+    (r.1, Res.ofOutcome Res.ptr r.2)
+  | .ashrink p osz oal nsz nal => let r := shrink E p osz oal nsz nal s; (r.1, Res.ofOutcome Res.ptr r.2)
+  | .reset => let r := reset s; (r.1, Res.ofOutcome (fun _ => Res.unit) r.2)
   | .limit v => ({ s with a := { s.a with limit := v } }, .unit)
 
 /-! ## observers (lib.rs:1995-2000, 2149-2218, 2425-2438) -/
